@@ -38,7 +38,7 @@ Dom == [
     frag |-> {"none", "isf", "first"},
     label |-> {"none", "big"},                 \* IPv6 flow label (type 13), a 20-bit value needing four bytes
     pad |-> {"none", "n239", "n240", "n241", "n255", "n256", "n257"},  \* extra destination ports so that the NLRI is exactly that many bytes long
-    action |-> {"discard", "rate", "redirect", "mark", "sample", "terminal"} ]
+    action |-> {"discard", "rate", "redirect", "mark", "sample", "terminal", "discard-sample", "redirect-mark"} ]    \* the last two: two actions in one rule
 Base == [v6 |-> FALSE, rd |-> FALSE, dst |-> "p24", src |-> "none", proto |-> "one", port |-> "none", dport |-> "one", sport |-> "none", itype |-> "none",
          icode |-> "none", flags |-> "none", plen |-> "none", dscp |-> "none", frag |-> "none", label |-> "none", pad |-> "none", action |-> "discard"]
 Bases == {Base, [Base EXCEPT !.v6 = TRUE, !.src = "p24"], [Base EXCEPT !.rd = TRUE, !.port = "range", !.flags = "syn"],
@@ -102,10 +102,14 @@ EncLen(n) == IF n < 240 THEN <<n>> ELSE <<240 + n \div 256, n % 256>>
 EncFlow(r) == EncLen(Len(Body(r))) \o Body(r)
 
 \* RFC 8955 section 7: extended communities of the actions (8 bytes each)
-Action(r) == CASE r.action = "discard"  -> <<128, 6, 0, 0, 0, 0, 0, 0>>                  \* traffic-rate 0
+Action(r) == CASE r.action \in {"discard", "discard-sample"} -> <<128, 6, 0, 0, 0, 0, 0, 0>>  \* traffic-rate 0
                [] r.action = "rate"     -> <<128, 6, 0, 0, 70, 22, 0, 0>>                \* traffic-rate 9600.0 (IEEE 754 0x46160000)
-               [] r.action = "redirect" -> <<128, 8, 255, 220, 0, 0, 48, 57>>            \* redirect 65500:12345
+               [] r.action \in {"redirect", "redirect-mark"} -> <<128, 8, 255, 220, 0, 0, 48, 57>>   \* redirect 65500:12345
                [] r.action = "mark"     -> <<128, 9, 0, 0, 0, 0, 0, 12>>                 \* traffic-marking DSCP 12
                [] r.action = "sample"   -> <<128, 7, 0, 0, 0, 0, 0, 2>>                  \* traffic-action, S bit
                [] OTHER                 -> <<128, 7, 0, 0, 0, 0, 0, 1>>                  \* traffic-action, T bit
+\* every community the rule must carry (a rule may name several actions)
+Actions(r) == CASE r.action = "discard-sample" -> {Action(r), <<128, 7, 0, 0, 0, 0, 0, 2>>}
+                [] r.action = "redirect-mark"  -> {Action(r), <<128, 9, 0, 0, 0, 0, 0, 12>>}
+                [] OTHER -> {Action(r)}
 =============================================================================
